@@ -158,7 +158,7 @@ def run_length(spec, res):
             if tier != 'quick':
                 sts += [dict(nsat=3, nsig=3, cellmask=11, maskmode='value', seed=9), dict(nsat=4, nsig=2, cellmask='ones', maskmode='value', seed=8)]
         elif k == 'harm':
-            sts = [dict(harm=h) for h in ((0, 0, 0), (0, 1, 0), (0, 1, 1), (0, 2, 0), (1, 2, 1), (0, 3, 1), (2, 1, 1), (0, 5, 2), (0, 15, 15), (0, 15, 3))]
+            sts = [dict(harm=h) for h in ((0, 0, 0), (0, 1, 0), (0, 1, 1), (0, 2, 0), (1, 2, 1), (0, 3, 1), (2, 1, 1), (0, 5, 2), (0, 15, 15), (0, 15, 3))] + [dict(harm=(1, 1, 1), harmvary=1), dict(harm=(2, 3, 1), harmvary=2)]
         elif k == 'flags':
             sts = [dict(flags=x) for x in range(16)]
         else:
